@@ -10,6 +10,7 @@ import (
 func init() {
 	vHarnesses["VH_C03_tail"] = VH_C03_tail
 	vHarnesses["VH_C03_cut"] = VH_C03_cut
+	vHarnesses["VH_C03_deeptail"] = VH_C03_deeptail
 }
 
 // one valid program per statement / expression form
@@ -46,7 +47,22 @@ func VH_C03_tail() {
 		alphabet = "09ad{}[]()'\"`|&?:,;.=+-*/ \n\x1e_~#"
 	}
 	tail := vSymSource("t", vParam("n", 2), alphabet)
-	input := vC03Progs[k] + string(tail)
+	vC03Check(vC03Progs[k] + string(tail))
+}
+
+var vC03DeepProgs = []string{"5", "x=3", "2d1", "[1,2]", "1?2:3", "fn1(1)"}
+
+//vh:prop=C03 tiers=quick,thorough sigkeys=prog overrides=formatFriendlyError unwind=400 unwind_ok=1 budget_s=2400 quick:P.n=4 thorough:P.n=5 bounds="deeper tails: 6 programs followed by every tail of exactly n bytes (4 quick, 5 thorough) over the operator/bracket alphabet {+ [ 1 , x = ( { '} - tails that begin an operand, literal, call or assignment and break off; same assertions as VH_C03_tail"
+func VH_C03_deeptail() {
+	k := vParam("prog", -1)
+	if k < 0 {
+		k = vChoice("prog", len(vC03DeepProgs))
+	}
+	tail := vSymSource("t", vParam("n", 4), "+[1,x=({'")
+	vC03Check(vC03DeepProgs[k] + string(tail))
+}
+
+func vC03Check(input string) {
 	vm := vNewVM()
 	vm.Config.DiceMinMode = true
 	err := vm.Run(input)
@@ -76,6 +92,27 @@ func VH_C03_tail() {
 		default:
 			class = "/rest-starts-with-control-byte"
 		}
+		// the first construct the returned text opens (bracket or quote)
+		opens := "none"
+		for j := ri; j < len(rest) && opens == "none"; j++ {
+			switch rest[j] {
+			case '[':
+				opens = "["
+			case '{':
+				opens = "{"
+			case '(':
+				opens = "("
+			case '\'':
+				opens = "'"
+			case '"':
+				opens = "dquote"
+			case '`':
+				opens = "backtick"
+			case 0x1e:
+				opens = "0x1e"
+			}
+		}
+		class += "/opens-" + opens
 	}
 	vNote("class", class)
 	ret1, det1, attrs1 := vm.Ret.ToRepr(), vm.GetDetailText(), vAttrsString(vm)
